@@ -1,13 +1,176 @@
-import OnlVerif.Net.DRROnK
-import Mathlib.Algebra.Order.Field.Rat
+import OnlVerif.Lemmas.DRRKFinal
+import OnlVerif.Props.C12
+import OnlVerif.Props.C15
 /-!
 # C15/C12 on the kernel: the DRR scheduler *as processes on the kernel model* refines the MultiQueueServer LTS
 
-(work in progress: the kernel-evaluated examples; the theorems follow)
+`OnlVerif/Net/DRROnK.lean` writes `DRR.put`, `Scheduler.send_packet`, `DRR.__init__` (the quanta) and `DRR.run` (the
+`while total_packets > 0` / `for class_id, count in class_count.items()` / `while deficit > 0 and class_count > 0` loops with
+head-of-line parking) and a packet source as one program of the kernel model `K`; credits and quanta are scalars kept in cells,
+the parked head of each class in a cell.  Every kernel step of this program is a (possibly empty) sequence of actions the
+MultiQueueServer LTS with the DRR record (`Net/Sched/DRR.lean`) *accepts*, commuting with the executable abstraction `absDRR`;
+so the C12 and C15 theorems of the LTS hold of kernel runs — credit range, ledger, fairness bound — with no admissibility
+assumption.
+
+Scope: one `DRR` whose `weights` dict names the classes `0 … F-1` each once, in an arbitrary order, with positive weights, the
+identity `flow2class` (`FlowsOK`), an `out` attached, `rate > 0`; one source process with non-negative gaps whose packets belong
+to these classes and have at most `Lmax` bytes (`WorkOK`); the yield-free loops may run `passBound Lmax = Lmax/1500 + 2` passes
+in one burst (more would be the modelled `Hang`, proved unreachable); exact rational time; `fuel + 1` = any positive bound of
+the `_resume` loop.
 -/
 
 namespace C15KD
-open DRROnK
+open DRROnK DRRK MQ
+
+/-- the bound on the passes of one burst is enough for packets of `Lmax` bytes -/
+theorem passBound_ok (Lmax : Nat) : ∃ k, passBound Lmax = k + 1 ∧ Lmax ≤ 1500 * k :=
+  ⟨Lmax / 1500 + 1, rfl, le_of_lt (Nat.lt_mul_div_succ Lmax (by norm_num))⟩
+
+/-- **Refinement, step by step**: let `s` be reachable by kernel steps from the initial state and let the next kernel step
+end in `s'`.  Then that step is a normal one (`.ok`: no exception — neither the `KeyError` / `AssertionError`s of `put` and `run`
+nor `Hang` —, no stop), and there is a (possibly empty) sequence of LTS actions that the MultiQueueServer LTS with the DRR record
+*accepts* from the abstraction of `s`, that ends exactly in the abstraction of `s'` (the step commutes with the executable
+abstraction function `absDRR`: credits, class counts, parked heads, ghost ledger included), and in which the packets accepted /
+sent out are exactly the `put` / `out` observations the kernel step appended to the trace. -/
+theorem drr_on_kernel_step_refines (F : Nat) (flow size : Int → Nat) (cfg : DRR.Cfg ℚ) (Lmax : Nat) (arrivals : List (ℚ × Int))
+    (hw : WorkOK flow F size Lmax arrivals) (ht : FlowsOK F cfg) (hr : 0 < cfg.rate) (fuel : Nat) (s s' : KState ℚ (DrrSt ℚ))
+    (hreach : KReach (prog F flow size cfg (passBound Lmax)) (fuel + 1) (initState F cfg arrivals) s)
+    (hstep : (step (prog F flow size cfg (passBound Lmax)) (fuel + 1) s).state? = some s') :
+    step (prog F flow size cfg (passBound Lmax)) (fuel + 1) s = .ok s' ∧
+    ∃ new acts, histOf s'.trace = histOf s.trace ++ new ∧ (∀ x ∈ acts, DRR.ActOk (Lmax : ℚ) x) ∧
+      runActs (DRR.sched cfg) (absDRR cfg flow size s) acts = .ok (absDRR cfg flow size s', putPk flow size new, outPk flow size new) := by
+  obtain ⟨a, _, hi, _⟩ := reach_lts fuel hw ht hr (passBound_ok Lmax) hreach
+  cases hp : popMin s.agenda with
+  | none => simp [_root_.step, hp, StepResult.state?] at hstep
+  | some qr =>
+    obtain ⟨q, rest⟩ := qr
+    obtain ⟨s'', a', new, h1, h2, -, -, -, h6, acts0, acts, -, -, hact, -, -, h7⟩ := inv_step_lts fuel hi hp
+    rw [h1] at hstep
+    simp only [StepResult.state?, Option.some.injEq] at hstep
+    subst hstep
+    exact ⟨h1, new, acts0 ++ acts, h6, hact, by rw [absDRR_eq hi, absDRR_eq h2]; exact h7⟩
+
+/-- **Refinement, whole runs**: every state reachable by kernel steps is the image under `absDRR` of an *admissible* run of
+the LTS from the state of a fresh `DRR` (`DRR.start`: zero credits, the quanta of `__init__`): the LTS accepts some action
+sequence — whose packets have at most `Lmax` bytes — that ends in `absDRR s` and in which the packets accepted are the `put`
+observations and the packets sent out the `out` observations of the kernel trace, in order.  So `absDRR s` is `DRR.Reached` and
+`MQ.Reached`, the hypotheses of the C15 and C12 theorems. -/
+theorem drr_on_kernel_refines_lts (F : Nat) (flow size : Int → Nat) (cfg : DRR.Cfg ℚ) (Lmax : Nat) (arrivals : List (ℚ × Int))
+    (hw : WorkOK flow F size Lmax arrivals) (ht : FlowsOK F cfg) (hr : 0 < cfg.rate) (fuel : Nat) (s : KState ℚ (DrrSt ℚ))
+    (hreach : KReach (prog F flow size cfg (passBound Lmax)) (fuel + 1) (initState F cfg arrivals) s) :
+    DRR.Reached cfg (Lmax : ℚ) 0 (absDRR cfg flow size s) ∧
+    Reached (DRR.sched cfg) (DRR.ctl0 cfg) 0 (DRR.counts0 cfg) (absDRR cfg flow size s) (putPk flow size (histOf s.trace))
+      (outPk flow size (histOf s.trace)) := by
+  obtain ⟨a, acts, hi, hact, hrun⟩ := reach_lts fuel hw ht hr (passBound_ok Lmax) hreach
+  rw [absDRR_eq hi]
+  refine ⟨⟨acts, _, _, hact, hrun⟩, ?_, acts, hrun⟩
+  intro e he
+  simp only [DRR.counts0, List.mem_map] at he
+  obtain ⟨x, _, rfl⟩ := he
+  rfl
+
+/-- **No kernel step ever crashes, and `run()` returns**: for every workload as above, every state reachable by kernel
+steps is followed by a normal step or has an empty agenda — `Hang`, the `AssertionError`s of `run` and the `KeyError` of `put` are
+unreachable —, and `run()` of the kernel model returns (agenda empty, no exception) within `10·n + 4` kernel steps, `n` = the
+number of packets. -/
+theorem drr_on_kernel_run_returns (F : Nat) (flow size : Int → Nat) (cfg : DRR.Cfg ℚ) (Lmax : Nat) (arrivals : List (ℚ × Int))
+    (hw : WorkOK flow F size Lmax arrivals) (ht : FlowsOK F cfg) (hr : 0 < cfg.rate) (fuel n : Nat)
+    (hn : 10 * arrivals.length + 4 ≤ n) :
+    (∀ s, KReach (prog F flow size cfg (passBound Lmax)) (fuel + 1) (initState F cfg arrivals) s →
+      (∃ s', step (prog F flow size cfg (passBound Lmax)) (fuel + 1) s = .ok s') ∨
+        step (prog F flow size cfg (passBound Lmax)) (fuel + 1) s = .empty) ∧
+    ∃ sF, runAll (prog F flow size cfg (passBound Lmax)) (fuel + 1) n (initState F cfg arrivals) = .returned .none sF ∧
+      sF.agenda = [] ∧ KReach (prog F flow size cfg (passBound Lmax)) (fuel + 1) (initState F cfg arrivals) sF := by
+  constructor
+  · intro s hs
+    obtain ⟨a, hi⟩ := reach_inv fuel hw ht hr (passBound_ok Lmax) hs
+    cases hp : popMin s.agenda with
+    | none => right; simp [_root_.step, hp]
+    | some qr =>
+      obtain ⟨q, rest⟩ := qr
+      obtain ⟨s', _, _, h1, _⟩ := inv_step fuel hi hp
+      exact Or.inl ⟨s', h1⟩
+  · have h0 := inv_init (flow := flow) (size := size) arrivals hw ht hr (passBound_ok Lmax)
+    obtain ⟨sF, aF, h1, -, h3, h4⟩ := run_returns fuel (initState F cfg arrivals) n _ _ h0
+      (by rw [a0_mu]; omega) KReach.init
+    exact ⟨sF, h1, h3, h4⟩
+
+/-! ### the C15 theorems of the LTS, for kernel runs -/
+
+/-- **The credit range on the kernel** (`C15.drr_credit_range`): in every state reachable by kernel steps the credit of every
+declared class — the value of its `deficit` cell — lies in `[0, quantum + Lmax)`. -/
+theorem kernel_drr_credit_range (F : Nat) (flow size : Int → Nat) (cfg : DRR.Cfg ℚ) (Lmax : Nat) (hL : 0 < Lmax)
+    (arrivals : List (ℚ × Int)) (hw : WorkOK flow F size Lmax arrivals) (ht : FlowsOK F cfg) (hr : 0 < cfg.rate) (fuel : Nat)
+    (s : KState ℚ (DrrSt ℚ))
+    (hreach : KReach (prog F flow size cfg (passBound Lmax)) (fuel + 1) (initState F cfg arrivals) s) (c : Nat) (hc : c < F) :
+    0 ≤ cellTime s (cDef c) ∧ cellTime s (cDef c) < qOf cfg c + Lmax := by
+  have hR := (drr_on_kernel_refines_lts F flow size cfg Lmax arrivals hw ht hr fuel s hreach).1
+  have hd : lookup (absDRR cfg flow size s).ctl.deficit c = some (cellTime s (cDef c)) := by
+    simp only [absDRR]
+    exact lookup_dictOf (cfg.weights.map (·.1)) (fun c => cellTime s (cDef c)) c ▸ by
+      rw [if_pos ((mem_flows ht c).mpr hc)]
+  exact C15.drr_credit_range cfg (cfgOk_of ht) (Lmax : ℚ) (by exact_mod_cast hL) 0 _ hR c _ _ hd (quantum_eq ht hc)
+
+/-- **The ledger on the kernel** (`C15.drr_ledger`): in every state reachable by kernel steps, for every declared class:
+bytes booked (the sizes of its `done` observations) + credit (its `deficit` cell) = quantum × visits (the number of its `visit`
+observations) − credit forgotten (its ghost cell). -/
+theorem kernel_drr_ledger (F : Nat) (flow size : Int → Nat) (cfg : DRR.Cfg ℚ) (Lmax : Nat) (hL : 0 < Lmax)
+    (arrivals : List (ℚ × Int)) (hw : WorkOK flow F size Lmax arrivals) (ht : FlowsOK F cfg) (hr : 0 < cfg.rate) (fuel : Nat)
+    (s : KState ℚ (DrrSt ℚ))
+    (hreach : KReach (prog F flow size cfg (passBound Lmax)) (fuel + 1) (initState F cfg arrivals) s) (c : Nat) (hc : c < F) :
+    (cnt (sentOf flow size (histOf s.trace)) c : ℚ) + cellTime s (cDef c) =
+      qOf cfg c * (cnt (visitsOf (histOf s.trace)) c : ℚ) - DRR.acc (absDRR cfg flow size s).ctl.forfeited c := by
+  have hR := (drr_on_kernel_refines_lts F flow size cfg Lmax arrivals hw ht hr fuel s hreach).1
+  have hd : lookup (absDRR cfg flow size s).ctl.deficit c = some (cellTime s (cDef c)) := by
+    simp only [absDRR]
+    exact lookup_dictOf (cfg.weights.map (·.1)) (fun c => cellTime s (cDef c)) c ▸ by
+      rw [if_pos ((mem_flows ht c).mpr hc)]
+  exact C15.drr_ledger cfg (cfgOk_of ht) (Lmax : ℚ) (by exact_mod_cast hL) 0 _ hR c _ _ hd (quantum_eq ht hc)
+
+/-- **DRR fairness on the kernel** (`C15.drr_fair`): over any stretch of a kernel run (from a reachable state `s1` to `s2`,
+`KWin`) in every state of which two classes `a ≠ b` (entries `ia`, `ib` of the declaration order) are both backlogged
+(`class_count > 0`), the bytes sent for them in the stretch — the sizes of the `out` observations appended to the trace —
+divided by their quanta differ by less than `4 + 3·Lmax·(1/Q_a + 1/Q_b)`, however long the stretch. -/
+theorem kernel_drr_fair (F : Nat) (flow size : Int → Nat) (cfg : DRR.Cfg ℚ) (Lmax : Nat) (hL : 0 < Lmax)
+    (arrivals : List (ℚ × Int)) (hw : WorkOK flow F size Lmax arrivals) (ht : FlowsOK F cfg) (hr : 0 < cfg.rate) (fuel : Nat)
+    (s1 s2 : KState ℚ (DrrSt ℚ))
+    (hreach : KReach (prog F flow size cfg (passBound Lmax)) (fuel + 1) (initState F cfg arrivals) s1) (ia ib a b : Nat)
+    (hwin : KWin (prog F flow size cfg (passBound Lmax)) (fuel + 1) (fun x => DRR.Both ia ib a b (absDRR cfg flow size x)) s1 s2)
+    (Qa Qb : ℚ) (hqa : DRR.quantum cfg a = some Qa) (hqb : DRR.quantum cfg b = some Qb) :
+    ∃ new, histOf s2.trace = histOf s1.trace ++ new ∧
+      |(pkBytes cfg a (outPk flow size new) : ℚ) / Qa - (pkBytes cfg b (outPk flow size new) : ℚ) / Qb| <
+        4 + 3 * (Lmax : ℚ) * (1 / Qa + 1 / Qb) := by
+  obtain ⟨a1, _, hi, _⟩ := reach_lts fuel hw ht hr (passBound_ok Lmax) hreach
+  obtain ⟨a2, mouts, new, -, k2, k3, k4⟩ := kwin_window fuel ia ib a b hi hwin
+  have hR := (drr_on_kernel_refines_lts F flow size cfg Lmax arrivals hw ht hr fuel s1 hreach).1
+  have := C15.drr_fair cfg (cfgOk_of ht) (Lmax : ℚ) (by exact_mod_cast hL) 0 _ _ hR ia ib a b mouts k3 Qa Qb hqa hqb
+  refine ⟨new, k2, ?_⟩
+  simp only [C15.bytesOf, k4] at this
+  exact this
+
+/-! ### the C12 theorems for kernel runs -/
+
+/-- **Per-flow FIFO and conservation on the kernel** (`C12.mq_flow_fifo`): at every state reachable by kernel steps the
+packets of flow `f` handed to `put` so far are, in order, those of `f` handed to `out.put` followed by those of `f` still
+held (in transmission, then the parked head, then waiting in `stores[f]`). -/
+theorem kernel_flow_fifo (F : Nat) (flow size : Int → Nat) (cfg : DRR.Cfg ℚ) (Lmax : Nat) (arrivals : List (ℚ × Int))
+    (hw : WorkOK flow F size Lmax arrivals) (ht : FlowsOK F cfg) (hr : 0 < cfg.rate) (fuel : Nat) (s : KState ℚ (DrrSt ℚ))
+    (hreach : KReach (prog F flow size cfg (passBound Lmax)) (fuel + 1) (initState F cfg arrivals) s) (f : Nat) :
+    ofFlow f (putPk flow size (histOf s.trace)) =
+      ofFlow f (outPk flow size (histOf s.trace)) ++ ofFlow f (heldC (DRR.sched cfg) (absDRR cfg flow size s) f) :=
+  C12.mq_flow_fifo (DRR.sched cfg) (DRR.lawful cfg) (DRR.ctl0 cfg) 0 (DRR.counts0 cfg) _ _ _
+    (drr_on_kernel_refines_lts F flow size cfg Lmax arrivals hw ht hr fuel s hreach).2 f f (classOf_id ht f)
+
+/-- **The counters are exact on the kernel** (`C12.mq_counters_eq`): `queue_count[f]`, `queue_byte_size[f]` and
+`total_packets`, read from the attribute cells of a reachable kernel state, equal the number / bytes of the packets held. -/
+theorem kernel_counters_eq (F : Nat) (flow size : Int → Nat) (cfg : DRR.Cfg ℚ) (Lmax : Nat) (arrivals : List (ℚ × Int))
+    (hw : WorkOK flow F size Lmax arrivals) (ht : FlowsOK F cfg) (hr : 0 < cfg.rate) (fuel : Nat) (s : KState ℚ (DrrSt ℚ))
+    (hreach : KReach (prog F flow size cfg (passBound Lmax)) (fuel + 1) (initState F cfg arrivals) s) (f : Nat) :
+    cnt (absDRR cfg flow size s).queueCount f = W (one f) (absDRR cfg flow size s) ∧
+    cnt (absDRR cfg flow size s).queueBytes f = W (bytesOf f) (absDRR cfg flow size s) ∧
+    total (absDRR cfg flow size s).queueCount = W (fun _ => 1) (absDRR cfg flow size s) :=
+  C12.mq_counters_eq (DRR.sched cfg) (DRR.lawful cfg) (DRR.ctl0 cfg) 0 (DRR.counts0 cfg) _ _ _
+    (drr_on_kernel_refines_lts F flow size cfg Lmax arrivals hw ht hr fuel s hreach).2 f
 
 /-! ### concrete runs of the kernel model, evaluated by the kernel of Lean (exact arithmetic) -/
 
@@ -68,5 +231,13 @@ example : orun 3 (tbl [0, 0, 1]) (tbl [500, 4000, 100]) cfg3 oInit
     orun 3 (tbl [0]) (tbl [500]) cfg3 oInit [.idle 0, .put 0 0, .visit 0 0, .serve 0 0, .out 0 1, .done 0 1, .idle 1] = none ∧
     orun 3 (tbl [0]) (tbl [500]) cfg3 oInit [.idle 0, .put 0 0, .visit 0 0, .serve 0 0, .out 0 1, .done 0 1, .reset 0 1, .idle 1] ≠ none := by
   decide +kernel
+
+/-- the hypotheses of the theorems are met by that workload (`WorkOK`, `FlowsOK`) with `Lmax = 9000` -/
+example : WorkOK (tbl [0, 0, 0, 1, 2, 2]) 3 (tbl [500, 500, 4000, 2000, 500, 9000]) 9000
+      [(0, 0), (0, 1), (0, 2), (0, 3), (1, 4), (0, 5)] ∧ FlowsOK 3 cfg3 ∧ passBound 9000 = 8 := by
+  refine ⟨?_, by unfold FlowsOK cfg3; decide, rfl⟩
+  intro x hx
+  simp only [List.mem_cons, List.not_mem_nil, or_false] at hx
+  rcases hx with rfl | rfl | rfl | rfl | rfl | rfl <;> exact ⟨by norm_num, by unfold PktOK; decide⟩
 
 end C15KD
